@@ -164,8 +164,8 @@ func runC10(c *core.Ctx) {
 				continue
 			}
 			for di, df := range defects {
-				// quick: documents one mutation away from a base get every second defect kind (the bases get all of them)
-				if !c.Thorough() && dist > 0 && di%2 == 1 && df.Needs != "interface" && df.Needs != "union" {
+				// quick: documents one mutation away from a base get every third defect kind (the bases get all of them)
+				if !c.Thorough() && dist > 0 && di%3 != 0 && df.Needs != "interface" && df.Needs != "union" {
 					continue
 				}
 				// a union container only holds fragments (its member fragments are visited as object sites): only the
@@ -216,7 +216,7 @@ func runC10(c *core.Ctx) {
 						continue
 					}
 					for _, nc := range configsFor(s, ft, false) {
-						if nc.Cfg.Car == world.CarNative {
+						if nc.Cfg.Car == world.CarNative || nc.Cfg.Bind == world.BindRegisterFields {
 							continue
 						}
 						g := g0
@@ -331,7 +331,7 @@ func runC10(c *core.Ctx) {
 		}
 		return true
 	})
-	c.R.Bound = fmt.Sprintf("base documents + %d mutations; one defect at every selection-set site (quick: every second defect kind on the mutated documents)", k)
+	c.R.Bound = fmt.Sprintf("base documents + %d mutations; one defect at every selection-set site (quick: every third defect kind on the mutated documents)", k)
 	if !completed {
 		c.Cap("deadline reached")
 	}
